@@ -95,6 +95,21 @@ func runCheck(id, tier, repo, verif string, fn ruleFn) (code int) {
 		}
 	}()
 	fn(c)
+	if tier == "thorough" {
+		// second build configuration: the only build tag of the repository (boringcrypto selects
+		// internal/fips_enabled.go). Every rule is evaluated again on that variant.
+		P2, err := LoadProgram(repo, false, "boringcrypto")
+		if err != nil {
+			c.Fail(id+".meta", "load/boringcrypto", "-", "cannot load the boringcrypto build variant: "+err.Error())
+		} else {
+			c.P = P2
+			c.variant = "@boringcrypto"
+			fn(c)
+			c.P = P
+			c.variant = ""
+			c.extra["build_variants"] = []string{"default", "GOEXPERIMENT=boringcrypto"}
+		}
+	}
 	return c.Finish()
 }
 
